@@ -184,6 +184,8 @@ class Inliner:
                 elif k == "resume" and unw is not None:
                     nb["t"] = {"k": "goto", "to": unw}
                 blocks.append(nb)
+            if cont is not None and dst:
+                _thread_polarity(blocks, tgt, boff, base, cont, dst)
             inl_from.append(tgt["path"])
             inl_from.extend(tgt.get("inlined_from") or [])
             changed = True
@@ -199,6 +201,180 @@ class Inliner:
             d["inlined_from"] = sorted(set(inl_from))
         self.memo[path] = d
         return d
+
+
+def _succ_idx(t):
+    out = []
+    k = t.get("k")
+    if k in ("goto", "drop", "assert", "call"):
+        if "to" in t:
+            out.append(("to", None))
+    elif k == "switch":
+        for i, _ in enumerate(t["targets"]):
+            out.append(("targets", i))
+        out.append(("otherwise", None))
+    elif k == "otherterm":
+        for i, _ in enumerate(t.get("succ", [])):
+            out.append(("succ", i))
+    return out
+
+
+def _get_succ(t, key):
+    k, i = key
+    if k == "targets":
+        return t["targets"][i][1]
+    if k == "succ":
+        return t["succ"][i]
+    return t[k]
+
+
+def _set_succ(t, key, v):
+    k, i = key
+    if k == "targets":
+        t["targets"] = [list(x) for x in t["targets"]]
+        t["targets"][i][1] = v
+    elif k == "succ":
+        t["succ"] = list(t["succ"])
+        t["succ"][i] = v
+    else:
+        t[k] = v
+
+
+def _continuation_pattern(blocks, cont, dst):
+    """how the caller tests the helper's result: ('q', B1, B2, ok_target, err_target) for `helper(..)?`, ('m', B, ok_target, err_target)
+    for `match helper(..)` / `if let Err(..) = helper(..)`; None otherwise.  ok/err mean Ok|Some / Err|None."""
+    b1 = blocks[cont]
+    t1 = b1["t"]
+    dl = dst[0]
+    if len(dst) != 1:
+        return None
+
+    def two_way(t, zero_is_ok):
+        if t.get("k") != "switch":
+            return None
+        tg = dict((v, b) for v, b in t["targets"])
+        t0 = tg.get(0, t["otherwise"])
+        t1_ = tg.get(1, t["otherwise"])
+        return (t0, t1_) if zero_is_ok else (t1_, t0)
+    if t1.get("k") == "call" and t1.get("callee", {}).get("name") == "branch" and t1.get("args") and "to" in t1:
+        a = t1["args"][0].get("p")
+        src_ok = bool(a) and (a[0] == dl or any(s_.get("k") == "use" and s_["d"] == [a[0]] and s_["o"] and s_["o"][0].get("p", [None])[0] == dl for s_ in b1["s"]))
+        if src_ok and t1.get("dst"):
+            b2 = blocks[t1["to"]]
+            bd = t1["dst"][0]
+            if any(s_.get("k") == "discr" and s_["o"] and s_["o"][0].get("p", [None])[0] == bd for s_ in b2["s"]):
+                tw = two_way(b2["t"], True)      # ControlFlow: Continue = 0, Break = 1
+                if tw:
+                    return ("q", cont, t1["to"], tw[0], tw[1])
+    for s_ in b1["s"]:
+        if s_.get("k") == "discr" and s_["o"] and s_["o"][0].get("p", [None]) == [dl]:
+            adt = s_.get("adt") or ""
+            if adt.endswith("::Result"):
+                tw = two_way(t1, True)           # Ok = 0, Err = 1
+            elif adt.endswith("::Option"):
+                tw = two_way(t1, False)          # None = 0, Some = 1
+            else:
+                tw = None
+            if tw and t1.get("k") == "switch" and t1["discr"].get("p", [None])[0] == s_["d"][0]:
+                return ("m", cont, None, tw[0], tw[1])
+    return None
+
+
+def _thread_polarity(blocks, g, boff, base, cont, dst):
+    """keep the correlation between *how* the inlined helper returns and what the caller's test of its result does next: returns that
+    assign Ok / Some go on to the Continue side only, returns that assign Err / None (or propagate a residual) to the Break side only.
+    Without this the helper's return paths would merge before the caller's `?`, and every dominance argument through the helper
+    (a guard inside it protects what follows the call) would see an infeasible path from the refusal to the protected code."""
+    ret = g.get("ret") or ""
+    if not (ret.startswith("core::result::Result") or ret.startswith("core::option::Option")):
+        return
+    pat = _continuation_pattern(blocks, cont, dst)
+    if pat is None:
+        return
+    n = len(g["blocks"])
+    # polarity of the blocks that define the return place (callee-local indices)
+    pol = {}
+    defs0 = set()
+    for i, gb in enumerate(g["blocks"]):
+        for s_ in gb["s"]:
+            if s_.get("d") and s_["d"][0] == 0:
+                defs0.add(i)
+                if s_["d"] == [0] and s_.get("k") == "agg" and (s_.get("adt") or "").endswith(("::Result", "::Option")):
+                    pol[i] = "ok" if s_.get("variant") in ("Ok", "Some") else "err"
+        t = gb["t"]
+        if t.get("k") == "call" and t.get("dst") and t["dst"][0] == 0:
+            defs0.add(i)
+            if t["dst"] == [0] and t.get("callee", {}).get("name") == "from_residual":
+                pol[i] = "err"
+    if not pol:
+        return
+    succ = {}
+    for i, gb in enumerate(g["blocks"]):
+        succ[i] = [_get_succ(gb["t"], k) for k in _succ_idx(gb["t"])]
+
+    def reach(starts):
+        seen, st = set(), list(starts)
+        while st:
+            x = st.pop()
+            if x in seen:
+                continue
+            seen.add(x)
+            st.extend(succ.get(x, []))
+        return seen
+    # epilogue of a defining block: what follows it, provided the return place is not written again on the way
+    for p_ in ("ok", "err"):
+        xs = [i for i, q in pol.items() if q == p_]
+        if not xs:
+            continue
+        epi = set()
+        good = []
+        for x in xs:
+            e = reach(succ[x])
+            if e & defs0 or not any(g["blocks"][y]["t"].get("k") == "return" for y in e):
+                continue
+            good.append(x)
+            epi |= e
+        if not good:
+            continue
+        # specialised continuation
+        target = pat[3] if p_ == "ok" else pat[4]
+        if pat[0] == "q":
+            c1 = copy.deepcopy(blocks[pat[1]])
+            c2 = copy.deepcopy(blocks[pat[2]])
+            i1 = len(blocks)
+            blocks.append(c1)
+            i2 = len(blocks)
+            blocks.append(c2)
+            c1["t"]["to"] = i2
+            c2["t"] = {"k": "goto", "to": target, "inl": "threaded"}
+            entry = i1
+        else:
+            c1 = copy.deepcopy(blocks[pat[1]])
+            entry = len(blocks)
+            blocks.append(c1)
+            c1["t"] = {"k": "goto", "to": target, "inl": "threaded"}
+        # clone the epilogue
+        cmap = {}
+        for y in sorted(epi):
+            cmap[y] = len(blocks)
+            blocks.append(copy.deepcopy(blocks[boff + y]))
+        for y, ny in cmap.items():
+            nb = blocks[ny]
+            t = nb["t"]
+            if g["blocks"][y]["t"].get("k") == "return":
+                # the copied block already ends with `dst = ret; goto cont`: send it to the specialised continuation
+                nb["t"] = {"k": "goto", "to": entry}
+                continue
+            for k in _succ_idx(t):
+                tv = _get_succ(t, k)
+                if tv - boff in cmap and boff <= tv < boff + n:
+                    _set_succ(t, k, cmap[tv - boff])
+        for x in good:
+            t = blocks[boff + x]["t"]
+            for k in _succ_idx(t):
+                tv = _get_succ(t, k)
+                if boff <= tv < boff + n and (tv - boff) in cmap:
+                    _set_succ(t, k, cmap[tv - boff])
 
 
 def apply(facts, deny=None):
